@@ -211,7 +211,7 @@ def observe_print(arg):
         s = str(f)
         ev["str"] = s
         ev["orig"] = structure(f.structure)
-        ev["toks"] = lex(s)
+        ev["chars"] = [ord(c) for c in s]
         try:
             g = P.formula(s, table=_tab(it.get("T")) if it.get("T") else None)
             ev["back"] = {"items": structure(g.structure)}
@@ -470,7 +470,7 @@ def observe_parse(arg):
     out = []
     for it in arg["items"]:
         s = it["s"]
-        ev = {"id": it["id"], "toks": lex(s)}
+        ev = {"id": it["id"], "chars": [ord(c) for c in s]}
         try:
             f = P.formula(s)
             ev["res"] = {"atoms": [dict(zip(("z", "a", "q"), key(a)), c=dec.to_dec(c)) for a, c in f.atoms.items()],
@@ -481,5 +481,10 @@ def observe_parse(arg):
                 ev["res"]["natural_density"] = {"k": "none"}
         except Exception as e:
             ev["res"] = {"exc": type(e).__name__}
+            try:                      # asked again: a refused string stays refused
+                P.formula(s)
+                ev["again"] = "accepted"
+            except Exception:
+                ev["again"] = "exc"
         out.append(ev)
     return out
